@@ -643,15 +643,18 @@ bool RegularExpression::matches(const XMLCh* const expression, const XMLSize_t s
             for (matchStart=context.fStart; matchStart<=limit; matchStart++) {
 
                 XMLInt32 ch;
+                // nextCh() moves the offset onto the low surrogate of a pair,
+                // the match itself has to start at the high surrogate
+                XMLSize_t chEnd = matchStart;
 
-                if (!context.nextCh(ch, matchStart))
+                if (!context.nextCh(ch, chEnd))
                     break;
 
-                if (!range->match(ch))
-                    continue;
-
-                if (0 <= (matchEnd = match(&context,fOperations,matchStart)))
+                if (range->match(ch)
+                    && 0 <= (matchEnd = match(&context,fOperations,matchStart)))
                     break;
+
+                matchStart = chEnd;
             }
         }
         else {
